@@ -17,16 +17,19 @@ Open Scope list_scope.
    (2) reading those tokens with Python's grammar/precedence gives the Python expression
        (embed l) - (embed r) -- nothing is re-associated or captured by a neighbouring operator;
    (3) its value under E is lhs - rhs of the flat equation under the Modelica environment that
-       E induces through the name mangling (flat name n has the value of identifier sym_name n).
+       E induces through the name mangling (flat name n has the value of identifier sym_name n);
+       values are dual numbers (value, time derivative), so der(e) of an ARBITRARY expression e
+       (der(m*v), der(x/y), ...) means the derivative by the sum/product/quotient rules on both
+       sides and the printed (e).diff(self.t) must apply to the whole of e.
    The hypothesis "no component called time is declared" is the [false] passed to [pull]:
    see C24_time_refuted.  Not covered: the step from characters to tokens (Python's tokenizer). *)
 Theorem C24_meaning
-  (powf : Qc -> Qc -> option Qc) (callf : str -> list Qc -> option Qc)
+  (powf : dual -> dual -> option dual) (callf : str -> list dual -> option dual)
   (B : list str) (E : penv) (l r : expr) (n : nat) :
   mem TIME B = false -> need_eq l r <= n ->
   render (print_tok_eq B l r) = print_eq B l r /\
   py_parse n (print_tok_eq B l r) = Some (PBin Sub (embed B l) (embed B r)) /\
-  obind (py_parse n (print_tok_eq B l r)) (peval powf callf E)
+  option_map fst (obind (py_parse n (print_tok_eq B l r)) (peval powf callf E))
   = m_eval_eq powf callf (pull B E false) l r.
 Proof.
   intros HB Hn. split; [apply render_print_eq|]. split; [now apply py_parse_eq|].
@@ -36,7 +39,7 @@ Print Assumptions C24_meaning.
 
 (* the same for a single expression (operator precedence respected at every nesting depth) *)
 Theorem C24_meaning_expr
-  (powf : Qc -> Qc -> option Qc) (callf : str -> list Qc -> option Qc)
+  (powf : dual -> dual -> option dual) (callf : str -> list dual -> option dual)
   (B : list str) (E : penv) (e : expr) (n : nat) :
   mem TIME B = false -> need e + 1 <= n ->
   render (print_tok B e) = print B e /\
@@ -95,20 +98,30 @@ Qed.
 Print Assumptions C24_time_refuted.
 
 (* non-vacuity: a concrete equation, its emitted line, and the value the reader gives it.
-   der(x) = (x + a.b) * -(k) ^ 2   at  x=3, a.b=1/2, k=2, der(x)=5  is  5 - (7/2 * -4) = 19 *)
+   der(m * v) = (x + a.b) * -(k) ^ 2  at m=v=3, x=3, a.b=1/2, k=2, all derivatives 5:
+   (5*3 + 3*5) - (7/2 * -4) = 44 *)
 Example C24_example :
-  let l := EDer (EVar (s_ "x")) in
+  let l := EDer (EBin Mul (EVar (s_ "m")) (EVar (s_ "v"))) in
   let r := EBin Mul (EBin Add (EVar (s_ "x")) (EVar (s_ "a.b")))
                     (EUn true (EBin Pow (EVar (s_ "k")) (ENum (s_ "2") (Q2Qc 2)))) in
-  let E := PEnv (fun s => if str_eqb s (s_ "x") then Q2Qc 3
-                          else if str_eqb s (s_ "a__b") then Q2Qc (1 # 2) else Q2Qc 2)
+  let E := PEnv (fun s => if str_eqb s (s_ "k") then Q2Qc 2
+                          else if str_eqb s (s_ "a__b") then Q2Qc (1 # 2) else Q2Qc 3)
                 (fun _ => Q2Qc 5) (Q2Qc 0) in
-  let powf := fun a b : Qc => if Qc_eq_dec b (Q2Qc 2) then Some (a * a)%Qc else None in
+  let powf := fun a b : dual => if Qc_eq_dec (fst b) (Q2Qc 2)
+                                then Some (fst a * fst a, Q2Qc 2 * fst a * snd a)%Qc else None in
+  let ev := fun ts => option_map (fun d : dual => this (fst d))
+                        (obind (py_parse 200 ts) (peval powf (fun _ _ => None) E)) in
   mem TIME BUILTINS0 = false /\
-  print_eq BUILTINS0 l r = s_ "(x).diff(self.t) - (((x) + (a__b)) * (- ((k) ** (2))))" /\
-  option_map this
-    (obind (py_parse (need_eq l r) (print_tok_eq BUILTINS0 l r)) (peval powf (fun _ _ => None) E))
-  = Some (19 # 1)%Q /\
+  print_eq BUILTINS0 l r = s_ "sympy.sympify((m) * (v)).diff(self.t) - (((x) + (a__b)) * (- ((k) ** (2))))" /\
+  Nat.leb (need_eq l r) 200 = true /\
+  ev (print_tok_eq BUILTINS0 l r) = Some (44 # 1)%Q /\
+  (* der() of a literal-only expression is 0 (the argument is sympified before .diff) *)
+  ev (print_tok BUILTINS0 (EDer (EBin Mul (ENum (s_ "2") (Q2Qc 2)) (ENum (s_ "0.5") (Q2Qc (1 # 2))))))
+  = Some (0 # 1)%Q /\
+  (* without a delimiter around the der() argument the trailer binds to the last operand only:
+     (m) * (v).diff(self.t) is m * v' = 15, not (m*v)' = 30 *)
+  ev [TLp; TName (s_ "m"); TRp; TSp; TOp Mul; TSp; TLp; TName (s_ "v"); TRp; TDiff] = Some (15 # 1)%Q /\
+  ev (print_tok BUILTINS0 l) = Some (30 # 1)%Q /\
   (* the unparenthesised form of the unrepaired printer reads as something else *)
   py_parse 40 [TName (s_ "x"); TSp; TOp Add; TSp; TName (s_ "y"); TSp; TOp Mul; TSp; TName (s_ "k")]
   = Some (PBin Add (PName (s_ "x")) (PBin Mul (PName (s_ "y")) (PName (s_ "k")))).
